@@ -416,3 +416,9 @@ V("c13-benign-bisect-left-over-ends", "C13", CE, [("from functools import lru_ca
    "    _ends = [end for _start, end, _width in CELL_WIDTHS]\n    index = bisect_left(_ends, codepoint)\n    if index < len(CELL_WIDTHS):\n        start, _end, width = CELL_WIDTHS[index]\n        if codepoint >= start:\n            return 0 if width == -1 else width\n    return 1")], None, None)
 V("c14-table-no-columns-guard-dropped", "C14", "rich/table.py", "        columns = self.columns\n        if not columns:\n            return []\n", "        columns = self.columns\n", "R14.9")
 V("c14-benign-table-no-columns-len", "C14", "rich/table.py", "        columns = self.columns\n        if not columns:\n            return []\n", "        columns = self.columns\n        if len(columns) == 0:\n            return []\n", None)
+V("c16-closing-line-own-separator", "C16", "rich/pretty.py", "            suffix=self.suffix,\n", "            suffix=\",\" if (tuple_of_one and not self.is_root) else node.separator,\n", "R16.8")
+V("c16-closing-line-no-suffix", "C16", "rich/pretty.py", "            whitespace=whitespace,\n            suffix=self.suffix,\n", "            whitespace=whitespace,\n", "R16.8")
+V("c16-benign-closing-suffix-temp", "C16", "rich/pretty.py", [("        child_whitespace = self.whitespace + \" \" * indent_size\n", "        child_whitespace = self.whitespace + \" \" * indent_size\n        trailing = self.suffix\n"), ("            suffix=self.suffix,\n", "            suffix=trailing,\n")], None, None)
+V("c14-pretty-measure-empty-repr", "C14", "rich/pretty.py", "        text_width = (\n            max(cell_len(line) for line in pretty_str.splitlines()) if pretty_str else 0\n        )\n", "        text_width = max(cell_len(line) for line in pretty_str.splitlines())\n", "R14.11")
+V("c14-text-measure-guard-dropped", "C14", TX, "        if not text.strip():\n            return Measurement(cell_len(text), cell_len(text))\n        max_text_width", "        max_text_width", "R14.11")
+V("c14-benign-pretty-measure-default", "C14", "rich/pretty.py", "        text_width = (\n            max(cell_len(line) for line in pretty_str.splitlines()) if pretty_str else 0\n        )\n", "        text_width = max((cell_len(line) for line in pretty_str.splitlines()), default=0)\n", None)
